@@ -32,7 +32,7 @@ META = {
             "was called) <= m <= (appends called before the read returned); no partial/merged record; each worker's records once "
             "and in program order; |F| = acknowledged appends; lock holder count (measured after acquire returns / before release "
             "is entered) never exceeds 1; after quiescence every object's reads equal a fresh reader's and its cached record "
-            "offsets equal the true byte offsets. Concurrent construction: worker A is preempted at every line of the backend constructor on a path that does not exist yet while worker B constructs, appends and reads. Held on the schedules observed.",
+            "offsets equal the true byte offsets. Concurrent construction: worker A is preempted at every line of the backend constructor on a path that does not exist yet while worker B constructs, appends and reads. Schedules also run on a journal with a dead writer's torn tail (> one 4096-byte block); a waiter whose total wait exceeds the grace period while the lock changes hands between two live holders (virtual clock) must not take the second holder's lock. Held on the schedules observed.",
     "note": "Trusted: the final file as read by a fresh backend, the harness's chunking raw-file wrapper (delegates to os.write on "
             "the same O_APPEND descriptor). Grace-period takeover with a DEAD holder is exercised in C05; NFS semantics are out of reach.",
     "technique": "runtime monitoring: unique-record history checked against the final log + lock-holder invariant, under line failpoints, chunked writes, delay soaks and OS processes",
